@@ -295,10 +295,10 @@ def run(ctx: core.Ctx):
         for lo in range(0, n, step):
             blocks.append(("words", "abc", size, lo, min(n, lo + step), "abc", 4))
     ctx.bounds["word_atoms"] = {k: repr(v) for k, v in WORD_ATOMS.items()}
-    pair_size = ctx.pick(4, 5)
+    pair_size = 4  # 160 trees -> 25 440 ordered pairs (size 5 would be 655 000 forked children)
     npair = len(pair_trees(pair_size))
     ctx.bounds["pattern_pairs"] = {"max_size": pair_size, "trees": npair, "ordered_pairs": npair * (npair - 1), "sequences": "all over ab up to length 3"}
     step = max(1, npair // (ctx.workers * 4) + 1)
     for lo in range(0, npair, step):
-        blocks.append(("pairs", pair_size, lo, min(npair, lo + step), "ab", 3))
+        blocks.append(("pairs", pair_size, lo, min(npair, lo + step), "ab", ctx.pick(3, 4)))
     ctx.run_blocks(_block, blocks, fresh=True)
